@@ -273,6 +273,8 @@ def check(pid, tier, seed):
                "known_findings_replayed": len(kf_lines),
                "notes": report["notes"]}
         cov.update(special["coverage"])
+        if P.get("explanation"):
+            cov["explanation"] = P["explanation"]
         L.write_evidence(pid, tier, seed, P.get("level", "proof"), cov, P.get("assumptions", []), time.time() - t0, 1 if rc else 0)
     return rc
 
